@@ -72,7 +72,7 @@ TObj == /\ IsEvent("Obj")
                a0 == s1.res[Len(s1.res)].ans
                a == IF a0 = "same" THEN "A" ELSE a0 IN                       \* "same": the holder of key 1, i.e. A's signer
            /\ sig' = s1
-           /\ e.op \notin Decoders => ((a = "A") <=> (e.res = "A")) /\ ((a = "B") <=> (e.res = "B"))
+           /\ e.op \notin Decoders => ((a = "A") <=> (e.res = "A")) /\ ((a = "B") <=> (e.res = "B")) /\ ((a = "err") => (e.res = "err"))
         /\ UNCHANGED <<nonce, bal, pool, gu, gr, mode, dead, last, hist, ver>>
 
 \* V sweep: the answer for every presented V is the one YouSigner.Sender's rule gives
